@@ -84,8 +84,18 @@ pub fn ran_is(a: &[u8; 6]) -> bool {
     true
 }
 
+/// Harness callbacks stand for USER code (flush / empty callbacks, processors, waits, samplers). The channel must
+/// never run user code inside its critical section: an emitting thread would be made to wait for it (C09) and a
+/// callback that re-enters the channel would deadlock (C08).
+pub fn assert_unlocked() {
+    assert!(shim::held() == 0, "user code is never run while the channel's state lock is held");
+}
+
 pub fn cb(i: usize) -> v::Callback {
-    Box::new(move || unsafe { RAN[i] += 1 })
+    Box::new(move || {
+        assert_unlocked();
+        unsafe { RAN[i] += 1 }
+    })
 }
 
 pub fn reset_statics() {
